@@ -6,12 +6,21 @@ D = datetime.date
 DT = datetime.datetime
 
 
+_EXTRA_KINDS = {}
+
+
 def kind_code(k):
     """wire code of a DataType.kind (a class)"""
     kc = kind_codes()
     if k in kc:
         return kc[k]
-    return 13 + 3 + (hash(k.__name__) % 50)   # unknown classes: stable but outside the named ones
+    # any other class: a code of its own, outside the named ones, numbered in order of first appearance in this process.
+    # (It used to be 16 + hash(name) % 50: under one hash seed in fifty two different classes — Decimal and Fraction in one
+    # key column — got the SAME code, the model then inferred a homogeneous column where the code has an object column, and the
+    # check raised a false alarm on the unchanged tree about once in thirty runs.)
+    if k not in _EXTRA_KINDS:
+        _EXTRA_KINDS[k] = 16 + len(_EXTRA_KINDS)
+    return _EXTRA_KINDS[k]
 
 
 def tag_code(v):
